@@ -50,7 +50,7 @@ def rule_map(chk: Check, model, cv: CompiledView, rid: str):
     f_sz = model.func("partition_runner.get_buffer_size")
     ev = SymEval(model)
     sz = ev.run_function(f_sz).ret
-    leaves = T.mk_call("jax.tree_util.tree_leaves", [S("buffer")])
+    leaves = T.mk_index(T.mk_call("jax.tree_util.tree_flatten", [S("buffer")]), T.ZERO)  # (normal form of tree_leaves(buffer))
     want_sz = T.mk_ite(T.lt(T.ZERO, T.mk_call("len", [leaves])), T.mk_index(T.mk_attr(T.mk_index(leaves, T.ZERO), "shape"), T.ZERO), T.ONE)
     chk.add(rid, "size: get_buffer_size", sz == want_sz, f"get_buffer_size returns {T.show(sz)[:200]}, expected leaves[0].shape[0] (1 for an empty tree)", chk.loc(f_sz))
     chk.add(rid, "writer uses get_buffer_size of the same buffer", size_inl is not None and size_inl == sz, "update_output does not take the modulus by get_buffer_size(buffer)", chk.loc(f_uo))
@@ -226,17 +226,17 @@ def rule_sizes(chk: Check, model, rid: str):
     # the spread a ring must cover: newest sequence number written so far minus the oldest one any scheduled window still names -
     # the oldest over all slots of the generation *and all window entries* (axes 2 and 4 of the whole windows array; a single
     # window entry, e.g. the newest, ignores the older entries and the extension for trainable delays)
-    mins = [e for e in rbs.events if e.kind == "call" and e.name in ("numpy.amin", "numpy.min") and e.args]
-    maxs = [e for e in rbs.events if e.kind == "call" and e.name in ("numpy.amax", "numpy.max") and e.args]
+    mins = [e for e in rbs.events if e.kind == "call" and e.name.endswith(".seq.min") and e.recv is not None]
+    maxs = [e for e in rbs.events if e.kind == "call" and e.name.endswith(".seq.max") and e.recv is not None and not e.loops[2:]]
 
     def _axes(e):
-        ax = dict(e.kwargs).get("axis", e.args[1] if len(e.args) > 1 else T.NONE)
+        ax = dict(e.kwargs).get("axis", e.args[0] if e.args else T.NONE)
         vals = ax[1] if ax[0] == "tuple" else (ax,)
         cs = [T.const_value(v) for v in vals]
         return None if any(c is None for c in cs) else {int(c) for c in cs}
     oks = len(mins) == 1 and len(maxs) == 1
     if oks:
-        a_in, a_out = mins[0].args[0], maxs[0].args[0]
+        a_in, a_out = mins[0].recv, maxs[0].recv
         def _whole_window(x):  # <timings>.windows[name] or the value of an iteration over <timings>.windows.items(): one whole window entry table
             if x[0] != "index":
                 return False
@@ -306,7 +306,7 @@ def rule_sizes(chk: Check, model, rid: str):
     if ok:
         lp = r.loops.get(st[0].loops[-1]) if st[0].loops else None
         muls = [x for x in T.walk(st[0].term) if x[0] == "call" and x[1] == "*"]
-        ok = len(muls) == 1 and muls[0][2][0][0] == "list" and len(muls[0][2][0][1]) == 1
+        ok = len(muls) == 1 and muls[0][2][0][0] in ("list", "tuple") and len(muls[0][2][0][1]) == 1
         if ok:
             item, count = muls[0][2][0][1][0], muls[0][2][1]
             s_el = T.mk_index(T.mk_index(("elem", lp.iter, lp.uid), T.ONE), T.ONE) if lp else None
